@@ -263,7 +263,12 @@ def run_case(prog):
     for r in refs:
         by_type.setdefault(r["type"], []).append(r)
     for at, rs in by_type.items():
-        found = LoggedAction.of_type(msgs, at)
+        try:
+            found = LoggedAction.of_type(msgs, at)
+        except Exception as e:
+            # the parser rebuilt these actions (the reference comes from it and the interpreter)
+            viol.append(("of_type-raised", {"type": at, "error": repr(e)[:200]}))
+            continue
         if len(found) != len(rs):
             viol.append(("of_type-count-vs-reference", {"type": at, "got": len(found), "want": len(rs)}))
             continue
@@ -308,6 +313,10 @@ def run_case(prog):
                     viol.append(("assertHasAction-returned-other-action", {"type": at}))
             except AssertionError:
                 passed = False
+            except Exception as e:
+                # the parser rebuilt this action from the same log; a helper that cannot is not equivalent
+                viol.append(("assertHasAction-raised", {"type": at, "error": repr(e)[:200]}))
+                break
             if passed != should:
                 viol.append(("assertHasAction-%s" % ("accepted-wrong" if passed else "rejected-right"), {"type": at, "succeeded": succ, "start": repr(s_), "end": repr(e_)}))
     for mt in mtypes:
